@@ -53,7 +53,15 @@ def units_stream(rng, per_unit, streams, viol, samples):
         x = float(f"{10 ** rng.uniform(-25, 25):.6g}")     # the high-precision class takes its inputs to 15 significant digits
         hp_cases.append(dict(c, hp=True, amount=float(x).hex()))
     hp_impl = run_impl("impl_units.py", hp_cases)
+    fl_impl = run_impl("impl_units.py", [dict(c, hp=False) for c in hp_cases])      # the same requests through the double-precision class
     hp_bad = []
+    for c, r, rf in zip(hp_cases, hp_impl, fl_impl):
+        if "err" not in r and "err" not in rf:
+            nh, nf = float.fromhex(r["num"]), float.fromhex(rf["num"])
+            if abs(nh - nf) > 1e-12 * max(abs(nh), abs(nf)):
+                hp_bad.append((c, r, f"the two classes disagree on the atoms for {float.fromhex(c['amount'])!r} {c['unit']}: "
+                                     f"InventoryHP {nh!r}, Inventory {nf!r} (their unit tables must define the same unit)"))
+                continue
     for c, r in zip(hp_cases, hp_impl):
         if "err" in r:
             if not (r["err"] == "ValueError" and c["kind"] == "activity" and c["stable"]):
